@@ -447,8 +447,8 @@ pub fn property() -> Property {
       "r1 is derived with the public strobe_digest only when the same construction reproduces r0 (else that scan is skipped and noted)",
     ],
     subs: vec![
-      prop_sub("recover_below_threshold", 2000, 40000, below_strat, below_oracle),
-      prop_sub("report_secret_scan", 1500, 30000, scan_strat, scan_oracle),
+      prop_sub("recover_below_threshold", 2000, 80000, below_strat, below_oracle),
+      prop_sub("report_secret_scan", 1500, 60000, scan_strat, scan_oracle),
       prop_sub("polynomial_shape", 600, 12000, poly_strat, poly_oracle),
     ],
   }
